@@ -151,14 +151,15 @@ impl<T: RtpsWriter> DataWriterEntity<T> {
             .find(|x| x.instance_handle == sample_instance_handle)
             .expect("Instance info must exist");
 
+        // The offered deadline is about when the application writes, not about the source timestamp it supplies
         match &mut instance_info.last_write_time {
             Some(last_write_time) => {
-                if *last_write_time < sample_timestamp {
-                    *last_write_time = sample_timestamp;
+                if *last_write_time < now {
+                    *last_write_time = now;
                 }
             }
             None => {
-                instance_info.last_write_time = Some(sample_timestamp);
+                instance_info.last_write_time = Some(now);
             }
         }
 
